@@ -905,8 +905,10 @@ func runC11(args []string) error {
 	sm := newSummary("C11")
 	distinct := distinctSet{}
 	nMain, nRerun, nXdep, nHist, nStale, nRich := 110, 14, 14, 30, 12, 1
+	nBlocks, nDirs := 40, 40
 	if *tier == "thorough" {
 		nMain, nRerun, nXdep, nHist, nStale, nRich = 1500, 150, 150, 400, 150, 8
+		nBlocks, nDirs = 600, 400
 	}
 
 	var plans []*c11plan
@@ -1202,6 +1204,14 @@ func runC11(args []string) error {
 		return err
 	}
 
+	// ------------------------------------------------------------ D. structured main bodies; E. directories with cross-file dependencies
+	if err := c11blocks(r.fork(), nBlocks, sm, distinct, &id); err != nil {
+		return err
+	}
+	if err := c11dirs(r.fork(), nDirs, sm, distinct, &id); err != nil {
+		return err
+	}
+
 	hdr := "From Verif Require Import Lib.Str Session.Model Session.Cases.\nFrom Coq Require Import NArith.\nOpen Scope N_scope.\n"
 	per := 120
 	for i, k := 0, 0; i < len(cases); i, k = i+per, k+1 {
@@ -1222,7 +1232,7 @@ func runC11(args []string) error {
 	sm.DistinctNontriv = len(distinct)
 	sm.Rule = "one evaluation = one session (one interpreter fed one program through one entry point with one cut); programs: seeded declaration-ordered programs of the model language " +
 		"(int globals, a pointer kind, one-parameter functions that read/write globals and print, order-sensitive updates) x seeded cuts x {Eval, Compile+Execute, CompileAST+Execute, EvalPath files on disk and on a MapFS, Compile all then Execute all}, " +
-		"histories that redefine functions between uses, and richer hand-written programs (types with methods, closures, slices, maps, loops); distinct = distinct (entry point, chunk texts); non-trivial = the session prints at least 2 lines"
+		"histories that redefine functions between uses, richer hand-written programs (types with methods, closures, slices, maps, loops), seeded structured main bodies (for/range/if/switch/bare blocks with local := declarations, closures over block-local and loop variables called after the block, function literals with defer, nested literals) evaluated inside func main and as top-level chunks, and packages spread over 2-4 files with initialisers that read variables and call functions of later files (EvalPath on disk and MapFS against Eval of the concatenated source and the compiled package); distinct = distinct (entry point, chunk texts); non-trivial = the session prints at least 2 lines"
 	keys := sortedKeys(sm.Distribution)
 	sort.Strings(keys)
 	return sm.write(*outDir)
